@@ -43,6 +43,18 @@ package ggql
 //@ spec cntUpTo(ss []*Subscription, n int, id string) int reads ss[], H_Subscription.sub
 //@ axiom cntUpToUnfold(ss []*Subscription, n int, id string): (n <= 0 ==> cntUpTo(ss, n, id) == 0) && (0 <= n && n < len(ss) ==> cntUpTo(ss, n+1, id) == cntUpTo(ss, n, id) + ite(ss[n].sub.Match(id), 1, 0))
 
+//@ -- the events of a subscription are resolved against the declared type of the subscription field, looked up in the
+//@ -- container type the field was resolved under; the parsed field, shared by every subscription made with the same
+//@ -- parsed executable, is not written (fix: it used to be)
+//@ func (*Subscription).prep
+//@   props C19 C11 C03
+//@   check panic {C03}
+//@   check frame {C11}
+//@   requires sub != nil && root != nil
+//@   ensures[event-type]{C19} old(fdOf(sub.field.ConType, sub.field.Name)) != nil ==> sub.etype == old(fdOf(sub.field.ConType, sub.field.Name).Type)
+//@   ensures[no-such-field]{C19} old(fdOf(sub.field.ConType, sub.field.Name)) == nil ==> sub.etype == nil
+//@   assigns sub.etype
+
 //@ func (*Root).subscribe
 //@   props C19
 //@   check panic {C03,C20}
@@ -50,7 +62,7 @@ package ggql
 //@   requires root != nil && sub != nil
 //@   requires[unlocked]{C20} !held(root.subLock)
 //@   ghost #registered[sub] += 1
-//@   assigns fresh, root.subscriptions, H_Field.ConType, held, #registered
+//@   assigns fresh, root.subscriptions, H_Subscription.etype, held, #registered
 //@   ensures[no-res] #res == old(#res)
 //@   ensures[appended] len(root.subscriptions) == old(len(root.subscriptions)) + 1 && root.subscriptions[old(len(root.subscriptions))] == sub
 //@   ensures[others-kept] forall k int {root.subscriptions[k]} :: 0 <= k && k < old(len(root.subscriptions)) ==> root.subscriptions[k] == old(root.subscriptions[k])
